@@ -144,6 +144,18 @@ func goEnv() []string {
 	return env
 }
 
+func buildHarness(name, scratch string) (string, error) {
+	bin := filepath.Join(scratch, name+".test")
+	cmd := exec.Command("go", "test", "-c", "-tags", "verif", "-trimpath", "-modfile", filepath.Join(scratch, "go.mod"), "-o", bin, "./harness/"+name)
+	cmd.Dir = verifDir
+	cmd.Env = goEnv()
+	out, err := cmd.CombinedOutput()
+	if err != nil {
+		return "", fmt.Errorf("building harness %s failed: %v\n%s", name, err, out)
+	}
+	return bin, nil
+}
+
 func build(p *propCfg, scratch string) (string, error) {
 	cmd := exec.Command(filepath.Join(verifDir, "lib/prepare.sh"), scratch)
 	cmd.Env = goEnv()
@@ -211,10 +223,28 @@ func runWorker(bin string, env []string, timeout time.Duration) (string, error) 
 }
 
 func run(p *propCfg, tier string, seed int64, replay string, determinism bool, scratch string, start time.Time) int {
+	if replay != "" {
+		// the replay file says which harness produced it
+		var rf struct {
+			Harness string `json:"harness"`
+		}
+		if b, e := os.ReadFile(replay); e == nil && json.Unmarshal(b, &rf) == nil && rf.Harness != "" {
+			cp := *p
+			cp.Harness = rf.Harness
+			p = &cp
+		}
+	}
 	bin, err := build(p, scratch)
 	if err != nil {
 		fmt.Fprintln(os.Stderr, "vcheck:", err)
 		return 2
+	}
+	extraBin := ""
+	if p.Extra != "" && replay == "" {
+		if extraBin, err = buildHarness(p.Extra, scratch); err != nil {
+			fmt.Fprintln(os.Stderr, "vcheck:", err)
+			return 2
+		}
 	}
 	buildS := time.Since(start).Seconds()
 	if replay != "" {
@@ -305,7 +335,11 @@ func run(p *propCfg, tier string, seed int64, replay string, determinism bool, s
 				if p.OnePerProcess {
 					wd = time.Duration(p.WatchdogSlackS) * time.Second
 				}
-				log, err := runWorker(bin, env, wd)
+				wbin := bin
+				if extraBin != "" && w%4 == 3 {
+					wbin = extraBin // every fourth worker runs the second harness serving this property
+				}
+				log, err := runWorker(wbin, env, wd)
 				b, rerr := os.ReadFile(outFile)
 				if rerr != nil {
 					// the worker died: a panic in the code under test or harness trouble
